@@ -17,6 +17,8 @@ package http
 //@   ensures[C16.c4] sent && do_err == nil && do_status != 200 && do_status != 404 ==> err != nil && err != os.ErrNotExist && out == nil
 //@   ensures[C16.c4] (!sent || do_err != nil) ==> err != nil && err != os.ErrNotExist && out == nil
 //@   ensures[C16.c5] err == nil ==> sent && do_err == nil && do_status == 200
+//@   // 'does not exist' is reported for a 404 answer and for nothing else (feeders take it for "the witness has no checkpoint yet")
+//@   ensures[C16.c6] err == os.ErrNotExist ==> sent && do_err == nil && do_status == 404
 
 // The update client reads what the witness answered: no answer makes it panic (C19).
 //@ func (Witness).Update
